@@ -88,7 +88,7 @@ CHECKS.update({
   note="Metadata reads of input Zarr arrays at build time are not side effects."),
  "C18": dict(
   category="exploration", design_ref="DESIGN.md 4/C18", engine="smallscope",
-  technique="exhaustive enumeration of (multi-array entry point x argument position x spec field) and of a size-literal grammar against exact rational arithmetic",
+  technique="exhaustive enumeration of (multi-array entry point x argument position x spec field x {explicit Spec, global configuration at creation time}) and of a size-literal grammar against exact rational arithmetic",
   text="88 multi-array entry points (every catalogued function with >=2 arrays, operators, index/take by array, compute/plan/visualize/store) x each position x 7 spec fields: ValueError or no returned plan containing both inputs. 3k/58k size literals: exact integer byte count or rejected, and read identically by Spec (allowed_mem under three reserved_mem settings; reserved_mem). Every primitive op of every catalogued operation's plan carries the Spec's allowed_mem/reserved_mem.",
   note="Any exception counts as rejecting a literal."),
  "C19": dict(
